@@ -1,6 +1,8 @@
 package harness
 
 import (
+	"context"
+	"errors"
 	"testing"
 	"testing/synctest"
 	"time"
@@ -9,7 +11,7 @@ import (
 )
 
 const c11Rule = "stateful on a fake clock with the REAL janitor goroutine: backend x TimeToLive {finite, Unlimited} x DeleteExpiredAfter d x job interval i x an eviction limit (heap / sys / count) that is configured but never exceeded; " +
-	"3-25 ops: writes with no/short/long/negative explicit TTL, deletes, clock jumps landing 1ns before / exactly at / 1ns after janitor ticks t0+k*i or k ticks ahead; " +
+	"3-25 ops: writes with no/short/long/negative explicit TTL, deletes, ExpireAll (finite TimeToLive only), clock jumps landing 1ns before / exactly at / 1ns after janitor ticks t0+k*i or k ticks ahead; " +
 	"after every jump the model removes exactly {E!=0 and E < tick-d} per tick and Len/Walk/Read of every key are compared; " +
 	"non-trivial = some tick removed a long-expired entry while a never-expiring or recently-expired entry was present and had to survive"
 
@@ -129,7 +131,16 @@ func propJanitor(c *Case) {
 		jumps := 0
 
 		for i := 0; i < nops; i++ {
-			switch c.Weighted("op", 5, 5, 1, 1) {
+			wExpireAll := 0
+			if cfgTTL != cache.UnlimitedTTL {
+				wExpireAll = 1 // on a scan-exempt Unlimited cache the effect of ExpireAll on cleanup is not specified
+			}
+
+			switch c.Weighted("op", 5, 5, 1, 1, wExpireAll) {
+			case 4:
+				applyTicks()
+				d.expireAll()
+				c.Class("expireall")
 			case 0:
 				k := baseKeys[c.Pick("key", len(baseKeys))]
 
@@ -191,5 +202,67 @@ func propJanitor(c *Case) {
 		if nRemoved > 0 {
 			c.Class("removed>0")
 		}
+	})
+}
+
+const c11bRule = "Failover / FailoverOf that create their OWN backend from BackendConfig (TimeToLive, DeleteExpiredAfter d, DeleteExpiredJobInterval i) with MaxStaleness m in {0, < d}: a value is built, the fake clock is advanced past its expiry by an age on either side of d (with janitor ticks in between), then a Get with a failing builder follows; " +
+	"oracle: an entry expired less than d ago is still there as stale fallback (the failing Get serves it, FailHard off), an entry expired more than d+i ago is gone (builder error); non-trivial = the age lies between MaxStaleness and DeleteExpiredAfter"
+
+// TestC11FailoverOwnedBackend: recently expired entries survive cleanup as stale fallback for Failover.
+func TestC11FailoverOwnedBackend(t *testing.T) {
+	runCheck(t, "C11", "C11FailoverOwnedBackend", c11bRule, func(c *Case) {
+		generic := c.Bool("generic")
+		interval := []time.Duration{time.Minute, time.Second, 10 * time.Minute}[c.Pick("interval", 3)]
+		dea := interval * time.Duration(c.Int("d/i", 2, 60))
+		ms := []time.Duration{0, dea / 4, dea / 2}[c.Pick("MaxStaleness", 3)]
+		ttl := []time.Duration{10 * time.Second, time.Hour}[c.Pick("ttl", 2)]
+
+		var age time.Duration
+
+		switch c.Weighted("age", 3, 1, 1) {
+		case 0:
+			age = ms + time.Duration(c.Int("between", 1, 99))*(dea-ms)/100
+			c.Class("age-between-MaxStaleness-and-DeleteExpiredAfter")
+			c.NonTrivial()
+		case 1:
+			age = time.Duration(c.Int("young", 1, 99)) * (ms + time.Second) / 100
+		case 2:
+			age = dea + 2*interval + time.Duration(c.Int("old", 0, 10))*interval
+			c.Class("age-beyond-DeleteExpiredAfter")
+		}
+
+		bcfg := cache.Config{TimeToLive: ttl, ExpirationJitter: -1, DeleteExpiredAfter: dea, DeleteExpiredJobInterval: interval}
+		c.Tracef("generic=%v BackendConfig{TimeToLive=%v DeleteExpiredAfter=%v DeleteExpiredJobInterval=%v} MaxStaleness=%v age at the failing Get=%v", generic, ttl, dea, interval, ms, age)
+
+		c.Bubble(func() {
+			var fe frontend
+
+			if generic {
+				fe = foOf{cache.NewFailoverOf[string](cache.FailoverConfigOf[string]{BackendConfig: bcfg, MaxStaleness: ms, FailedUpdateTTL: -1}.Use)}
+			} else {
+				fe = foPlain{cache.NewFailover(cache.FailoverConfig{BackendConfig: bcfg, MaxStaleness: ms, FailedUpdateTTL: -1}.Use)}
+			}
+
+			c.OnClose(1, fe.Close)
+
+			key := []byte("owned")
+			v, err := fe.Get(context.Background(), key, func(context.Context) (string, error) { return "v1", nil })
+			c.Assert(err == nil && gstr(v) == "v1", "first-build", "first Get = (%v, %v)", v, err)
+
+			time.Sleep(ttl + age)
+			synctest.Wait()
+
+			bErr := &buildErr{key: string(key), task: "owned", n: 2}
+			v, err = fe.Get(context.Background(), key, func(context.Context) (string, error) { return "", bErr })
+			synctest.Wait()
+			c.Tracef("failing Get %v after expiry = (%v, %v)", age, v, err)
+
+			switch {
+			case age < dea:
+				c.Assert(err == nil && gstr(v) == "v1", "stale-fallback-deleted", "entry expired %v ago (DeleteExpiredAfter %v, MaxStaleness %v): failing update returned (%v, %v), want the stale value kept as fallback", age, dea, ms, v, err)
+			case age > dea+interval:
+				c.Assert(errors.Is(err, bErr), "long-expired-kept", "entry expired %v ago (DeleteExpiredAfter %v + one interval %v): failing update returned (%v, %v), want the builder error because the entry was cleaned up", age, dea, interval, v, err)
+			}
+		})
 	})
 }
